@@ -69,6 +69,9 @@ func (g *c08gen) okStmt() string {
 		if g.r.Bool(0.3) {
 			return fmt.Sprintf("ALTER TABLE %s RENAME n TO n;", t)
 		}
+		if g.three(t) && g.r.Bool(0.25) {
+			return fmt.Sprintf("ALTER TABLE %s SET %s;", t, g.r.PickS("ENCLOSE_ALL TO TRUE", "LINE_BREAK TO CRLF", "ENCLOSE_ALL TO FALSE", "LINE_BREAK TO LF"))
+		}
 		g.added[t] = true
 		return fmt.Sprintf("ALTER TABLE %s ADD x DEFAULT n * 2;", t)
 	}
@@ -126,7 +129,11 @@ func (g *c08gen) failStmt() (string, string) {
 			return fmt.Sprintf("UPDATE tv SET n = 5, id = 10 / (id - %d);", kt), ""
 		}
 	}
-	switch g.r.Intn(28) {
+	switch g.r.Intn(30) {
+	case 28:
+		return fmt.Sprintf("ALTER TABLE %s SET %s;", t, g.r.PickS("ENCODING TO 'NOSUCH'", "DELIMITER TO 'ab'", "FORMAT TO 'NOSUCH'", "LINE_BREAK TO 'XX'", "NO_SUCH_ATTR TO 1")), ""
+	case 29:
+		return fmt.Sprintf("ALTER TABLE %s SET DELIMITER_POSITIONS TO 'x';", t), ""
 	case 26:
 		// wrong row length in a row whose values come from cells of another table
 		o := map[string]string{"t0": "t1", "t1": "t0"}[t]
